@@ -37,6 +37,11 @@ CHECKS = {
             "Each generated script is translated, compiled for the host against a mock Arduino core that turns every serial line, delay and pin command into a trace event, run for N loop() passes with an input tape, and compared event-for-event with CPython's execution of the same text; rejected scripts are counted, accepted scripts that do not compile or diverge are violations. Classes covered by open findings are excluded by construction (feature flags) and by a dynamic membership test on the CPython run.",
             "Mock core + host g++ stand in for avr-g++/Arduino core (32-bit int, %.9g floats); float cases restricted to float32-exact intermediates.",
             "DESIGN.md 3/C01"),
+    "C02": ("translation_validation",
+            "differential testing of generated type-flow scenarios (joins, hoisting, returns, parameters, lists, String promotion) against CPython, plus a static declared-type-vs-observed-type rule",
+            "Scripts are composed from type-flow scenarios with generated values and tape-controlled branches; every value is printed after every assignment and compared with CPython's run, and the C++ declaration of each user name must be able to hold every Python type the reference run observed in it.",
+            "Same trusted base as C01; scenario classes of open findings are off by construction and covered by their witnesses.",
+            "DESIGN.md 3/C02"),
 }
 
 PENDING = {}
